@@ -40,7 +40,7 @@ BASES = {"rg": ("r", "g"), "01": ("0", "1"), "rgx": ("r", "g", "x")}
 
 def _cfg(tier):
     if tier == "quick":
-        return dict(ns=[2, 3], dims=[2, 3], depth=2, precs=[1e-8], caps=[2, 64], kmax=2, inits=mps_bfs.INITIALS[:4], nsc=[2, 3])
+        return dict(ns=[2, 3], dims=[2, 3], depth=2, precs=[1e-8], caps=[2, 64], kmax=2, inits=mps_bfs.INITIALS[:4] + ["ghz_padded"], nsc=[2, 3])
     return dict(ns=[2, 3, 4, 6], dims=[2, 3], depth=3, precs=[1e-5, 1e-8], caps=[1, 2, 64], kmax=3, inits=mps_bfs.INITIALS, nsc=[2, 3, 4])
 
 
